@@ -7,7 +7,7 @@ PROP = {
     "rule": "a case is non-trivial when the axis is not a coordinate axis, or lies within 1e-2 of +-z (tilts 1e-13..1e-2 are generated on purpose); distinct = hash of (angles, axis). "
             "Angles in [-4pi,4pi] incl. 0, multiples of pi/2 and tiny angles; axes: Gaussian directions, the six coordinate directions, directions tilted by 1e-13..1e-11, 1e-9..1e-6 and "
             "1e-5..1e-2 from +z and -z, directions with a zero component, lengths 1e-6..1e6; r in 1e-6..1e6, theta in [0,pi] incl. the poles and 1e-9 from them, phi in [0,2pi)",
-    "floors": {"quick": {"cases": 250000, "distinct_nontrivial": 150000,
+    "floors": {"quick": {"cases": 900000, "distinct_nontrivial": 690000,
                          "clauses": {"rotation-transpose-is-inverse": 100000, "perpendicular-vectors-turn-by-alpha-right-handed": 250000, "rotations-about-one-axis-compose-by-adding-angles": 100000,
                                      "spherical-polar-angle-to-axis-is-theta": 100000, "azimuth-advances-right-handed-by-dphi": 30000, "spherical-norm-is-r": 100000,
                                      "plain-spherical-coordinates-closed-form": 15000, "2d-rotation-is-cos-sin-matrix": 15000, "angle-between-vectors": 15000}},
